@@ -293,10 +293,15 @@ func VerifC13CloseStatusAfterFlushError() {
 // a destination is identified by the spelling of its name: print, close and fflush given the same spelling mean
 // the same stream, whether or not a path cleaner would rewrite that spelling
 func VerifC13Names() {
-	name := []string{"A", "./A", "d/../A", "d//A", "A/.", " A", "a+b"}[verifIntRange(0, 6)]
+	name := []string{"A", "./A", "d/../A", "d//A", "A/.", " A", "a+b", "3.14159"}[verifIntRange(0, 7)]
+	numeric := name == "3.14159"
 	p, q := verifString(1), verifString(1)
 	pre := verifString(1)
 	disk := &verifDisk{content: map[string][]byte{name: []byte(pre)}}
+	if name == "3.14159" {
+		// the destination is a number: its name is the number's string form (CONVFMT), whatever OFMT is
+		name = "d"
+	}
 	progs := []string{
 		`BEGIN { print p > @@; r1 = close(@@); print q > @@; r2 = close(@@); r3 = close(@@) }`,
 		`BEGIN { print p >> @@; r1 = close(@@); print q >> @@; r2 = fflush(@@); r3 = close("other") }`,
@@ -304,6 +309,10 @@ func VerifC13Names() {
 	}
 	pi := verifIntRange(0, 2)
 	src := verifReplaceAll(progs[pi], "@@", "\""+name+"\"")
+	if numeric {
+		src = `BEGIN { OFMT = "%.2f"; d = 3.14159 } ` + verifReplaceAll(progs[pi], "@@", "d")
+		name = "3.14159"
+	}
 	cfg := &Config{Stdin: bytes.NewReader(nil), Output: &bytes.Buffer{}, Error: &bytes.Buffer{}, Environ: []string{},
 		OpenFile: func(n string, flag int, perm os.FileMode) (*os.File, error) {
 			disk.collect(n)
